@@ -300,14 +300,16 @@ func ComputeShard(n uint32, address []byte) uint32 {
 	return s
 }
 
-func (c *Coord) NumberOfShards() uint32           { return c.w.NumShards }
+func (c *Coord) NumberOfShards() uint32          { return c.w.NumShards }
 func (c *Coord) ComputeId(address []byte) uint32 { return ComputeShard(c.w.NumShards, address) }
 func (c *Coord) SelfId() uint32                  { return c.self }
 func (c *Coord) SameShard(a, b []byte) bool {
 	return ComputeShard(c.w.NumShards, a) == ComputeShard(c.w.NumShards, b)
 }
-func (c *Coord) CommunicationIdentifier(dest uint32) string { return fmt.Sprintf("%d_%d", c.self, dest) }
-func (c *Coord) IsInterfaceNil() bool                       { return c == nil }
+func (c *Coord) CommunicationIdentifier(dest uint32) string {
+	return fmt.Sprintf("%d_%d", c.self, dest)
+}
+func (c *Coord) IsInterfaceNil() bool { return c == nil }
 
 // ---------------------------------------------------------------------------------------------
 // Marshaller: the production wire codec, driven the way the node's GogoProtoMarshalizer drives it.
@@ -468,15 +470,15 @@ func (a *Adapter) SaveAccount(account vmcommon.AccountHandler) error {
 	}
 	return nil
 }
-func (a *Adapter) RemoveAccount(address []byte) error      { return nil }
-func (a *Adapter) Commit() ([]byte, error)                  { return nil, nil }
-func (a *Adapter) JournalLen() int                          { return 0 }
-func (a *Adapter) RevertToSnapshot(snapshot int) error      { return nil }
-func (a *Adapter) GetNumCheckpoints() uint32                { return 0 }
-func (a *Adapter) GetCode(codeHash []byte) []byte           { return nil }
-func (a *Adapter) RootHash() ([]byte, error)                { return nil, nil }
-func (a *Adapter) RecreateTrie(rootHash []byte) error       { return nil }
-func (a *Adapter) IsInterfaceNil() bool                     { return a == nil }
+func (a *Adapter) RemoveAccount(address []byte) error  { return nil }
+func (a *Adapter) Commit() ([]byte, error)             { return nil, nil }
+func (a *Adapter) JournalLen() int                     { return 0 }
+func (a *Adapter) RevertToSnapshot(snapshot int) error { return nil }
+func (a *Adapter) GetNumCheckpoints() uint32           { return 0 }
+func (a *Adapter) GetCode(codeHash []byte) []byte      { return nil }
+func (a *Adapter) RootHash() ([]byte, error)           { return nil, nil }
+func (a *Adapter) RecreateTrie(rootHash []byte) error  { return nil }
+func (a *Adapter) IsInterfaceNil() bool                { return a == nil }
 
 // Get returns the live account object, creating it if missing (node behaviour).
 func (sh *Shard) Get(address []byte) *Account {
